@@ -93,6 +93,25 @@ MUTANTS = [
     ("c20-logger-left-at-warning", "C20", "logging_config.py", "    elif info:\n        logger.setLevel(INFO)", "    elif info and debug:\n        logger.setLevel(INFO)", "detect"),
     ("c20-main-catches-and-returns", "C20", "main.py",
      "    MasterOfPuppets(match_config=match_config).perform_matching()", "    try:\n        MasterOfPuppets(match_config=match_config).perform_matching()\n    except Exception as exc:  # pylint: disable=broad-except\n        logger.error(\"Error: %s\", exc)", "detect"),
+    # ------------------------------------------------- behaviour-preserving refactorings: no check may alarm
+    ("ok-listing-read-via-pathlib", "ALL", "stringify_asm/implementations/null_disassembler.py",
+     "        with open(input_file, \"r\", encoding=\"utf-8\") as f:\n            return f.read()",
+     "        return __import__('pathlib').Path(input_file).read_text(encoding=\"utf-8\")", "silent-ok"),
+    ("ok-rule-read-via-pathlib-safe_load", "ALL", "jasm_regex/yaml2regex.py",
+     "        with open(file=file, mode=\"r\", encoding=\"utf-8\") as file_descriptor:\n            return yaml.load(stream=file_descriptor.read(), Loader=yaml.SafeLoader)",
+     "        return yaml.safe_load(__import__('pathlib').Path(file).read_bytes().decode(\"utf-8\"))", "silent-ok"),
+    ("ok-regex-precompiled", "ALL", "consumer.py",
+     "            match_result = regex.search(\n                pattern=self._regex_rule, string=self._all_instructions, timeout=self.timeout_regex\n            )",
+     "            match_result = regex.compile(self._regex_rule).search(self._all_instructions, timeout=self.timeout_regex)", "silent-ok"),
+    ("ok-log-format-and-stream-changed", "ALL", "logging_config.py",
+     "    stream_handler = StreamHandler()\n    stream_handler.setLevel(log_level)\n    formatter = Formatter(\"%(asctime)s - %(name)s - %(levelname)s - %(message)s\")",
+     "    stream_handler = StreamHandler(__import__('sys').stdout)\n    stream_handler.setLevel(log_level)\n    formatter = Formatter(\"[%(levelname)s] %(message)s\")", "silent-ok"),
+    ("ok-exists-check-via-os-path", "ALL", "stringify_asm/implementations/shell_disassembler.py",
+     "            assert Path(input_file).exists(), f\"File '{input_file}' does not exist\"",
+     "            if not __import__('os').path.isfile(input_file):\n                raise FileNotFoundError(f\"File '{input_file}' does not exist\")", "silent-ok"),
+    ("ok-objdump-via-check_output", "ALL", "stringify_asm/implementations/shell_disassembler.py",
+     "            result = subprocess.run(\n                [self.program] + self.flags + [input_file],\n                capture_output=True,\n                text=True,\n                check=True,\n            )\n\n            # Check the command executed correctly\n            if result.returncode == 0:\n                logger.info(\"File binary successfully disassembled\")\n                return result.stdout\n            raise ValueError(f\"Error while disassembling file. Return code error: {result.stderr}\")",
+     "            out = subprocess.check_output([self.program] + self.flags + [input_file], stderr=subprocess.PIPE).decode()\n            logger.info(\"File binary successfully disassembled\")\n            return out", "silent-ok"),
     ("c20-only-address-only-with-all", "C20", "main.py", "        return_only_address=args.return_only_address,", "        return_only_address=args.return_only_address and args.all_matches,", "detect"),
 ]
 
@@ -116,6 +135,21 @@ def run_mutant(mid, prop, relfile, old, new, expect, runs=None, keep=False):
                 return {"id": mid, "status": "STALE (text to replace not found)", "ok": False}
             open(p, "w").write(s.replace(o, n, 1))
         env = dict(os.environ, JASM_VERIF_REPO=base)
+        if prop == "ALL":
+            t0 = time.monotonic()
+            exits = {}
+            esc = 0
+            for pp in ("C14", "C15", "C17", "C20"):
+                r = subprocess.run([os.path.join(VERIF, "check"), pp, "--tier", "quick", "--no-evidence"] + (["--runs", str(runs)] if runs else []), env=env, capture_output=True, text=True)
+                exits[pp] = r.returncode
+                esc += r.stderr.count("seam-escape")
+                for mm in re.finditer(r"^VIOLATION property=\S+ replay=(\S+)$", r.stdout, re.M):
+                    try:
+                        os.remove(mm.group(1))
+                    except OSError:
+                        pass
+            return {"id": mid, "prop": prop, "expect": expect, "exits": exits, "seam_escape_warnings": esc, "ok": all(v == 0 for v in exits.values()),
+                    "wall": round(time.monotonic() - t0, 1)}
         cmd = [os.path.join(VERIF, "check"), prop, "--tier", "quick", "--no-evidence"]
         if runs:
             cmd += ["--runs", str(runs)]
